@@ -74,15 +74,14 @@ instance (views : List Nat) (buf value : Bytes) : NoCtx (viewPushValue views buf
 instance (views : List Nat) (buf bytes : Bytes) : NoCtx (viewSeq views buf bytes) := by
   unfold viewSeq; noctx
 
-/-- the scalar calls never annotate by themselves (the wrapper in `push` does) -/
-instance pushScalar_noctx (ext : Ext) [ExtPlain ext] : ∀ (b : B) (x : SVal), NoCtx (pushScalar ext b x)
-  | .dictionary p idx vals index, x => by
-    have h1 := fun y => pushScalar_noctx ext idx y
-    have h2 := fun y => pushScalar_noctx ext vals y
-    unfold pushScalar; dsimp only; noctx
-  | .null _ _, x | .unknownVariant _, x | .leaf _ _ _ _, x | .bytes _ _ _ _ _, x | .bytesView _ _ _ _ _, x
-  | .fixedSizeBinary _ _ _ _ _ _, x | .list _ _ _ _ _ _, x | .fixedSizeList _ _ _ _ _ _ _, x | .map _ _ _ _ _ _, x
-  | .struct _ _ _ _ _ _ _, x | .union _ _ _ _ _, x => by unfold pushScalar; noctx
+/-- the scalar calls of every builder but the dictionary builder never annotate by themselves (the wrapper in `push`
+does); a dictionary builder forwards the string to its value builder and the index to its key builder through THEIR
+wrapped calls (`pushScalar_within` below) -/
+theorem pushScalar_noctx (ext : Ext) [ExtPlain ext] : ∀ (b : B) (x : SVal), b.isDict = false → NoCtx (pushScalar ext b x)
+  | .dictionary p idx vals index, x, h => by simp [B.isDict] at h
+  | .null _ _, x, _ | .unknownVariant _, x, _ | .leaf _ _ _ _, x, _ | .bytes _ _ _ _ _, x, _ | .bytesView _ _ _ _ _, x, _
+  | .fixedSizeBinary _ _ _ _ _ _, x, _ | .list _ _ _ _ _ _, x, _ | .fixedSizeList _ _ _ _ _ _ _, x, _ | .map _ _ _ _ _ _, x, _
+  | .struct _ _ _ _ _ _ _, x, _ | .union _ _ _ _ _, x, _ => by unfold pushScalar; noctx
 
 /-! ### positions of a struct state -/
 
@@ -109,6 +108,27 @@ theorem tail_sub' {q0 : Pos} {l : List Pos} : ∀ q ∈ l, q ∈ q0 :: l := fun 
 theorem within_ann {α} {b : B} {S : List Pos} {r : R α} (hb : (b.path, b.label) ∈ S) (h : Within S r) :
     Within S (SaModel.ctx b.ann r) := by
   rw [ann_eq_posAnn]; exact Within.ctx _ hb h
+
+/-- every annotated error of a scalar call carries the annotation of a builder of the subtree: none for the builders
+without children; the key / value child (or, for a nested dictionary, a builder below it) for a dictionary builder -/
+theorem pushScalar_within (ext : Ext) [ExtPlain ext] : ∀ (b : B) (x : SVal), Within (positions b) (pushScalar ext b x)
+  | .dictionary p idx vals index, x => by
+    have hk : ∀ y, Within (positions (.dictionary p idx vals index)) (SaModel.ctx idx.ann (pushScalar ext idx y)) := fun y =>
+      Within.mono (by intro q hq; simp only [positions, List.mem_cons, List.mem_append]; exact .inr (.inl hq))
+        (within_ann (self_mem_positions _) (pushScalar_within ext idx y))
+    have hv : ∀ y, Within (positions (.dictionary p idx vals index)) (SaModel.ctx vals.ann (pushScalar ext vals y)) := fun y =>
+      Within.mono (by intro q hq; simp only [positions, List.mem_cons, List.mem_append]; exact .inr (.inr hq))
+        (within_ann (self_mem_positions _) (pushScalar_within ext vals y))
+    unfold pushScalar; dsimp only
+    split
+    · split
+      · exact Within.bind (hk _) fun _ _ => Within.of_ok _
+      · exact Within.bind (hv _) fun _ _ => Within.bind (hk _) fun _ _ => Within.of_ok _
+    · exact NoCtx.within _
+  | .null _ _, x | .unknownVariant _, x | .leaf _ _ _ _, x | .bytes _ _ _ _ _, x | .bytesView _ _ _ _ _, x
+  | .fixedSizeBinary _ _ _ _ _ _, x | .list _ _ _ _ _ _, x | .fixedSizeList _ _ _ _ _ _ _, x | .map _ _ _ _ _ _, x
+  | .struct _ _ _ _ _ _ _, x | .union _ _ _ _ _, x => by
+    exact @NoCtx.within _ _ _ (pushScalar_noctx ext _ x rfl)
 
 /-! ### serialize_default / serialize_none -/
 
@@ -283,7 +303,7 @@ theorem pushByteElems_within (ext : Ext) [ExtPlain ext] (large : Bool) : ∀ (bs
   | x :: rest, el, offs => by
     unfold pushByteElems
     refine Within.bind (NoCtx.within _) fun _ _ =>
-      Within.bind (within_ann (self_mem_positions _) (NoCtx.within _)) fun el' h' => ?_
+      Within.bind (within_ann (self_mem_positions _) (pushScalar_within ext el _)) fun el' h' => ?_
     have e := positions_of_takeRest (pushScalar_takeRest ext el _ el' ((ctx_ok _ _ _).1 h'))
     exact e ▸ pushByteElems_within ext large rest el' _
 
